@@ -155,7 +155,7 @@ class Env:
     """Three scratch directories: good, solo (junk only), both; plus output dirs for -j and the exclude file."""
 
     def __init__(self):
-        self.root = tempfile.mkdtemp(prefix='c09_', dir=clidrv.scratch_root())
+        self.root = tempfile.mkdtemp(prefix='c09_', dir=clidrv.odd_root())
         for n in ('good', 'solo', 'both', 'out_good', 'out_solo', 'out_both'):
             os.mkdir(os.path.join(self.root, n))
         for name, spec in GOOD.items():
